@@ -126,9 +126,18 @@ PROBES = [
 ]
 
 
+# the public Python API with per-call settings: what one call was given is not part of the next call's configuration
+_API_TEXT = "# Top\n\n## Sub title\n\nterm\n: definition\n\n[](#sub-title) ~~gone~~ {{ k }}\n\n- [ ] task\n"
+API_ITEMS = [
+    {"name": "api_html5_demo_with_settings", "api": "html5_demo", "text": _API_TEXT, "cfg": {}, "settings": {"myst_enable_extensions": ["deflist", "tasklist", "strikethrough", "substitution"], "myst_heading_anchors": 2, "myst_substitutions": {"k": "v"}}},
+    {"name": "api_html5_demo_plain", "api": "html5_demo", "text": _API_TEXT, "cfg": {}, "settings": {}},
+    {"name": "api_html5_demo_other_settings", "api": "html5_demo", "text": _API_TEXT, "cfg": {}, "settings": {"myst_all_links_external": True, "myst_title_to_header": True, "initial_header_level": 3}},
+]
+
+
 def make_pool(seed, n):
     R = random.Random(seed)
-    pool = [{"name": nm, "text": tx, "cfg": cfg} for nm, tx, cfg in PROBES]
+    pool = [{"name": nm, "text": tx, "cfg": cfg} for nm, tx, cfg in PROBES] + [dict(x) for x in API_ITEMS]
     i = 0
     while len(pool) < n:
         g = G.Gen(random.Random(R.getrandbits(40)), max_depth=3, hr_in_container=False, blocks=[b for b in G.Gen.BLOCKS_STATIC + G.Gen.BLOCKS_DYNAMIC if b not in ("hr",)])
@@ -143,6 +152,17 @@ def make_pool(seed, n):
 
 def render_item(item, workdir):
     """(pformat, warnings) with paths normalised; the configuration objects of ``item`` are passed as they are (shared)."""
+    if item.get("api") == "html5_demo":
+        import io as _io
+
+        from myst_parser.parsers.docutils_ import to_html5_demo
+
+        ws = _io.StringIO()
+        try:
+            out = to_html5_demo(item["text"], warning_stream=ws, halt_level=5, **item["settings"])
+        except Exception as e:  # noqa: BLE001
+            out = f"EXCEPTION {type(e).__name__}: {e}"
+        return out.replace(workdir, "WORKDIR"), ws.getvalue().replace(workdir, "WORKDIR")
     kw = G.cfg_to_overrides(item["cfg"])
     if "myst_inventories" in kw:
         kw["myst_inventories"] = {k: [v[0], os.path.join(workdir, v[1])] for k, v in kw["myst_inventories"].items()}
@@ -459,7 +479,7 @@ def eval_case(ctx, case):
 def run_shard(ctx):
     R = ctx.rng
     quick = ctx.tier == "quick"
-    pool_n = len(PROBES) + 5 if quick else 90
+    pool_n = len(PROBES) + len(API_ITEMS) + 5 if quick else 90
     pool_seed = ctx.seed * 1000 + ctx.shard
     pool = POOLS.setdefault((pool_seed, pool_n), make_pool(pool_seed, pool_n))
     nh = 60 if quick else 4000
@@ -468,7 +488,7 @@ def run_shard(ctx):
         L = R.randint(2, 30)
         hist = [R.randrange(len(pool)) for _ in range(L)]
         if R.random() < 0.5:  # make probe interactions likely
-            hist[: R.randint(1, 4)] = [R.randrange(len(PROBES)) for _ in range(R.randint(1, 4))]
+            hist[: R.randint(1, 4)] = [R.randrange(len(PROBES) + len(API_ITEMS)) for _ in range(R.randint(1, 4))]
         inter = {str(p): R.choice(["html", "html5_demo", "tokens"]) for p in range(L) if R.random() < 0.15}
         case = {"kind": "history", "pool_seed": pool_seed, "pool_n": pool_n, "history": hist, "interleave": inter}
         eval_case(ctx, case)
